@@ -380,7 +380,7 @@ def hitmiss(input, Bc, out=None, output=None):
     # dtypes are different from those implemented in `internal._get_output`
 
     if out is None:
-        out = np.empty_like(input)
+        out = np.empty(input.shape, input.dtype)
     else:
         if out.shape != input.shape:
             raise ValueError('mahotas.hitmiss: out must be of same shape as input')
